@@ -11,7 +11,8 @@ pickle of `size` bytes made from a `Db` (version, options, compiled model).
 `load` performs the checks of `load_model` in the order of the code:
 `getmtime` of the cache (absent -> `FileNotFoundError`), the mtime walk over the model folder
 and the library folders *of the current options* with the comparison `file > cache`,
-`pickle.load` with its two `except` clauses, the version test, the option test without the
+`pickle.load` with its two `except` clauses (`RuntimeError` first, then `Exception`), the
+version test, the option test without the
 excluded key `library_folders`.  `transfer` is `transfer_model`: option rewriting, `load`,
 and on `FileNotFoundError` / `InvalidCacheError` compile + `save_model`; any other exception
 escapes.  What unpickling a strict prefix raises is a parameter (`truncErr`, observed from
@@ -50,9 +51,9 @@ structure Exc where
   deser : Bool
   deriving DecidableEq, Repr
 
-/-- The tuple of the second `except` clause of `load_model`. -/
-def caughtClasses : List String :=
-  ["UnpicklingError", "AttributeError", "EOFError", "ImportError", "IndexError"]
+/-- The second `except` clause of `load_model` (since 9d600b8: `except Exception`; before: the
+    tuple `UnpicklingError, AttributeError, EOFError, ImportError, IndexError`). -/
+def caughtClasses : List String := ["Exception"]
 
 inductive Reason
   | noFile | outOfDate | casadiVersion | damaged | version | options
